@@ -114,7 +114,15 @@ class Model(HoloPyObject):
 
         dummy_scatterer = fields['_dummy_scatterer']
         scatterer_parameters = read_map(maps['scatterer'], parameters)
-        scatterer = dummy_scatterer.from_parameters(scatterer_parameters)
+        if isinstance(dummy_scatterer, RigidCluster):
+            # RigidCluster.from_parameters evaluates the rotation, which is
+            # impossible while rotation or translation still hold priors
+            scatterer = RigidCluster(
+                dummy_scatterer.spheres.from_parameters(scatterer_parameters),
+                translation=scatterer_parameters['translation'],
+                rotation=scatterer_parameters['rotation'])
+        else:
+            scatterer = dummy_scatterer.from_parameters(scatterer_parameters)
         theory_parameters = read_map(maps['theory'], parameters)
         theory = fields['theory'].from_parameters(theory_parameters)
         kwargs = {'scatterer': scatterer, 'theory': theory}
